@@ -164,7 +164,9 @@ func anyBelow(xs []int, n int) bool {
 
 func runStack2(in input) driver.Result {
 	r := coqfmt.NewRng(in.State)
-	T := rty.GenStruct(r, rty.AllOpts(in.Depth, in.Width), 0)
+	o := rty.AllOpts(in.Depth, in.Width)
+	o.Twins = true // sibling fields whose types differ only in skipped fields pointerify to the same type: their layer slots get aliased
+	T := rty.GenStruct(r, o, 0)
 	defaults := reflect.New(T)
 	rty.GenValue(r, defaults.Elem(), rty.VOpts{NilNum: 1, NilDen: 4}, 0)
 	PT := ptrify.Pointerify(T, defaults.Elem())
